@@ -17,6 +17,9 @@ def wp (c impl : List String) : Option Verdict := do
     let as ← P.list pSysIP; pure (b, ol, au, v, p, as)) c
   let ps := currentPrefixes bits as
   let model := s!"{ps.length}" ++ String.join (ps.map fun q => s!" {prefixToks q} {boolTok ol} {boolTok au} {v} {p}")
+  if impl == ["err"] then
+    return { model := model, oracle := false, nontrivial := true,
+             note := "Apply failed although the address source succeeded (a plugin handed to Prepare must use the source Prepare installs)" }
   let implOut ← P.run (P.list (do
     let q ← P.prefix_; let o ← P.bool; let a ← P.bool; let v' ← P.int; let p' ← P.int
     pure (q, o, a, v', p'))) impl
@@ -61,6 +64,9 @@ def wr (c impl : List String) : Option Verdict := do
   let (pref, lt, rs) ← P.run (do let pr ← P.nat; let lt ← P.int; let rs ← P.list P.prefix_; pure (pr, lt, rs)) c
   let out := currentRoutes rs
   let model := s!"{out.length}" ++ String.join (out.map fun q => s!" {prefixToks q} {pref} {lt}")
+  if impl == ["err"] then
+    return { model := model, oracle := false, nontrivial := true,
+             note := "Apply failed although the route source succeeded (a plugin handed to Prepare must use the source Prepare installs)" }
   let implOut ← P.run (P.list (do let q ← P.prefix_; let pr ← P.nat; let l ← P.int; pure (q, pr, l))) impl
   let uniform := implOut.all fun (_, pr, l) => pr == pref && l == lt
   let nt := rs.any (fun p => rs.any fun q => Spec.C15.covers q p) ||
